@@ -1447,12 +1447,27 @@ impl StoryState {
             ));
         }
 
+        // The flow must exist (the dictionary itself only exists once a
+        // second flow has been created).
+        let exists = self.current_flow.name.eq(flow_name)
+            || self
+                .named_flows
+                .as_ref()
+                .is_some_and(|flows| flows.contains_key(flow_name));
+        if !exists {
+            return Err(StoryError::BadArgument(format!(
+                "Cannot remove flow '{flow_name}': no such flow"
+            )));
+        }
+
         // If we're currently in the flow that's being removed, switch back to default
         if self.current_flow.name.eq(flow_name) {
             self.switch_to_default_flow_internal();
         }
 
-        self.named_flows.as_mut().unwrap().remove(flow_name);
+        if let Some(named_flows) = self.named_flows.as_mut() {
+            named_flows.remove(flow_name);
+        }
         self.alive_flow_names_dirty = true;
 
         Ok(())
